@@ -1,6 +1,9 @@
 import PoxModel.Proofs.STreeLoop
 import PoxModel.Proofs.STreeBridge
 import PoxModel.Proofs.DiscoveryBits
+import PoxModel.Proofs.DiscoveryInv
+import PoxModel.Proofs.DiscoveryEvents
+import PoxModel.Proofs.STreeReach
 import PoxModel.Proofs.DiscoveryAdj
 import PoxModel.Proofs.DiscoveryFlood
 import PoxModel.Proofs.ProbeFrame
@@ -8,10 +11,12 @@ import PoxModel.Proofs.ProbeFrame
 
 Property theorems only (helper lemmas live in `Proofs/STree*.lean`, `Proofs/Discovery*.lean`, `Proofs/Probe*.lean`).
 Models: `Model/STree.lean` (`calcTreeL` = `_calc_spanning_tree` with the culling loop and the traversal as written, `updateTree` =
-`_update_tree`), `Model/Discovery.lean` (probe codec, adjacency state machine, `_handle_LinkEvent`).  `fixed` = the code with the repairs D20 (`_delete_links` pops before it raises) and C19-1 (`_handle_LinkEvent`
-always recomputes); `pinned` = the code before them.  `tree_is_forest`, `link_events`, `adjacency_exact`, `probe_roundtrip` hold for both;
-`flood_ports` holds for `fixed` and is refuted for `pinned` by the two `…_defect` witnesses.  `flood_ports` speaks about the switches of
-the tree; `flood_ports_defect_outside_tree` shows why it cannot say more (proposed known finding C19-2). -/
+`_update_tree`), `Model/Discovery.lean` (probe codec, adjacency state machine, `_handle_LinkEvent`).  `fixed` = the code with the repairs D20 (`_delete_links` pops before it raises) and C19-1 (`_handle_LinkEvent` always recomputes);
+`full` = `fixed` plus the repair C19-2 (`_update_tree` goes through every connected switch, fixes/C19-2_update_tree_all_switches.diff);
+`pinned` = the code before all of them.  `tree_is_forest`, `link_events`, `event_iff_change`, `adjacency_exact`, `probe_roundtrip` hold for
+all variants.  `flood_ports_full` (every connected switch) is proved for `full` (`flood_ports_full_repaired`, and as a history invariant:
+`flood_keeps`) and refuted for `fixed` (`flood_ports_defect_oneway_loop`, `flood_ports_defect_outside_tree`), for which only
+`flood_ports_partial` (switches of the tree) holds; `pinned` fails even that (`flood_ports_defect_D20`, `flood_ports_defect_skip`). -/
 namespace Pox.C19
 open Pox Pox.STree Pox.Discovery
 
@@ -156,6 +161,31 @@ example : ∀ pre l ord post, [Op.up 1 [1], .up 2 [1], .probe ⟨1, 1, 2, 1⟩ [
     obtain ⟨_, _, _, h4⟩ := h
     cases r <;> simp at h4
 
+/-- EVENT ⇔ CHANGE.  One op raises, about link `l`: nothing if `l`'s membership in the adjacency does not change, otherwise exactly one
+event, announcing the new status.  (So a component that never raised an event could never change its adjacency.) -/
+theorem event_iff_change (v : Variant) (s : DState) (op : Op) (l : Link) (h : (keys s.adj).Nodup) :
+    stream l (step v s op).2.events =
+      if inAdj s l = inAdj (step v s op).1 l then [] else [inAdj (step v s op).1 l] :=
+  step_stream v s op l h
+
+/-- After every history: `l` is in the adjacency iff the last LinkEvent about `l` was "added" (no event yet: not in it). -/
+theorem in_adjacency_iff_last_added (v : Variant) (ops : List Op) (l : Link) :
+    l ∈ keys (runOps v Discovery.init ops).1.adj ↔ lastOr false (stream l (evsOf (runOps v Discovery.init ops).2)) = true := by
+  have h := run_last v l ops Discovery.init (by simp [Discovery.init, keys])
+  have h0 : inAdj Discovery.init l = false := by simp [inAdj, Discovery.init, keys]
+  rw [h0] at h
+  rw [← h]; simp [inAdj]
+
+/-- The links of a disconnected switch are withdrawn: right after ConnectionDown of `d` no link with an end on `d` is in the adjacency. -/
+theorem down_withdraws (v : Variant) (ops : List Op) (d : Nat) (o : List Nat) (l : Link) (t : Nat)
+    (h : (l, t) ∈ (runOps v Discovery.init (ops ++ [Op.down d o])).1.adj) : l.dpid1 ≠ d ∧ l.dpid2 ≠ d :=
+  after_down v ops d o l t h
+
+/-- The links of a silent switch are withdrawn: right after an expiry sweep every link left was last probed at most 10 s ago. -/
+theorem sweep_bounds_age (v : Variant) (ops : List Op) (o : List Nat) (l : Link) (t : Nat)
+    (h : (l, t) ∈ (runOps v Discovery.init (ops ++ [Op.sweep o])).1.adj) : clock ops ≤ t + LINK_TIMEOUT :=
+  after_sweep v ops o l t h
+
 /-- non-vacuity: link up, refreshed, expired, up again, switch down -/
 def l12 : Link := ⟨1, 1, 2, 1⟩
 def hist1 : List Op :=
@@ -166,11 +196,11 @@ example : (runOps pinned Discovery.init (hist1.take 7)).1.adj = [] := by decide
 
 /-! ## Flood bits -/
 
-/-- FLOOD_PORTS (repaired handlers).  After every history, for every op that changes the adjacency (raises a LinkEvent): if the new
+/-- FLOOD_PORTS, PARTIAL (code with D20 and C19-1, WITHOUT the repair C19-2): only the switches of the tree — see `flood_ports_full`.  After every history, for every op that changes the adjacency (raises a LinkEvent): if the new
 adjacency has no self-links (and `order` is an enumeration of its switches), `_calc_spanning_tree` returns a tree `t` of the NEW
 adjacency, and for every switch of that tree that has a connection, every port below `OFPP_MAX` has `_prev` equal to
 "is a tree port, or is an edge port": tree ports and host-facing ports flood, every other inter-switch port does not. -/
-theorem flood_ports (ops : List Op) (op : Op) :
+theorem flood_ports_partial (ops : List Op) (op : Op) :
     let s := (runOps fixed Discovery.init ops).1
     let s' := (step fixed s op).1
     (step fixed s op).2.events ≠ [] → (∀ l ∈ keys s'.adj, l.dpid1 ≠ l.dpid2) →
@@ -187,28 +217,28 @@ theorem flood_ports (ops : List Op) (op : Op) :
 
 /-- PORT_MODS = CHANGES.  One `_update_tree()` from any `_prev`: a port_mod is sent for (switch, port) iff its `_prev` entry changes,
 every port_mod carries the new value, and a flood state that agreed with `_prev` before agrees with it after the port_mods are applied. -/
-theorem port_mods_are_changes (adj : List Link) (order : List Nat) (conns : Conns) (pv pv' : Prev) (mods : List PortMod)
-    (h : updateTree adj order conns pv = .ok (pv', mods)) :
+theorem port_mods_are_changes (va : Bool) (adj : List Link) (order : List Nat) (conns : Conns) (pv pv' : Prev) (mods : List PortMod)
+    (h : updateTree va adj order conns pv = .ok (pv', mods)) :
     (∀ b, Agree b pv → Agree (applyMods b mods) pv') ∧
     (∀ sw p, (∃ f, (⟨sw, p, f⟩ : PortMod) ∈ mods) ↔ pv'.get (sw, p) ≠ pv.get (sw, p)) ∧
     (∀ m ∈ mods, pv'.get (m.sw, m.port) = some m.flood) :=
-  updateTree_mods adj order conns pv pv' mods h
+  updateTree_mods va adj order conns pv pv' mods h
 
 /-- SEND FAILURE (`except: _prev.clear()`, spanning_tree.py:225-227).  If the (k+1)-th `con.send` of an `_update_tree()` raises, the
 first k port_mods of the undisturbed run have been sent and `_prev` is empty afterwards; and the next `_update_tree()` that goes
 through (from the empty `_prev`) sends a port_mod for every port below `OFPP_MAX` of every connected tree switch, so whatever the
 NO_FLOOD bits `b` on the switches were, those ports end with "tree port or edge port". -/
-theorem send_failure_recovery (adj : List Link) (order : List Nat) (conns : Conns) (pv pv1 : Prev) (mods1 : List PortMod) (k : Nat)
-    (h1 : updateTree adj order conns pv = .ok (pv1, mods1)) (hk : k < mods1.length)
+theorem send_failure_recovery (va : Bool) (adj : List Link) (order : List Nat) (conns : Conns) (pv pv1 : Prev) (mods1 : List PortMod) (k : Nat)
+    (h1 : updateTree va adj order conns pv = .ok (pv1, mods1)) (hk : k < mods1.length)
     (pv2 : Prev) (mods2 : List PortMod) (t : List TEdge) (ht : calcTreeL adj order = .ok t)
-    (h2 : updateTree adj order conns [] = .ok (pv2, mods2)) (b : Prev) :
-    updateTreeF adj order conns pv (some k) = .ok ([], mods1.take k) ∧
-    ∀ sw ∈ treeKeys t, ∀ ports, conns.get sw = some ports → ∀ p ∈ ports, p < OFPP_MAX →
+    (h2 : updateTree va adj order conns [] = .ok (pv2, mods2)) (b : Prev) :
+    updateTreeF va adj order conns pv (some k) = .ok ([], mods1.take k) ∧
+    ∀ sw ∈ visited va t conns, ∀ ports, conns.get sw = some ports → ∀ p ∈ ports, p < OFPP_MAX →
       (applyMods b mods2).get (sw, p) = some (decide (p ∈ treePorts t sw) || isEdgePort adj sw p) :=
-  ⟨updateTreeF_failed adj order conns pv pv1 mods1 k h1 hk, update_from_cleared adj order conns pv2 mods2 t ht h2 b⟩
+  ⟨updateTreeF_failed va adj order conns pv pv1 mods1 k h1 hk, update_from_cleared va adj order conns pv2 mods2 t ht h2 b⟩
 
 /-- non-vacuity: on the triangle the 4th of the 9 sends fails -/
-example : ((updateTreeF triAdj [1, 2, 3, 4] [(1, [1, 2, 4]), (2, [1, 2, 4]), (3, [1, 2, 3])] [] (some 3)).toOption.map
+example : ((updateTreeF false triAdj [1, 2, 3, 4] [(1, [1, 2, 4]), (2, [1, 2, 4]), (3, [1, 2, 3])] [] (some 3)).toOption.map
     fun r => (r.1.length, r.2.length)) = some (0, 3) := by decide
 
 /-- BITS = `_prev` (either variant).  After every history the flood state of every (switch, port) reconstructed from the messages
@@ -231,30 +261,13 @@ theorem flood_bits (ops : List Op) (op : Op) :
   have e : s' = (step fixed (runOps fixed Discovery.init ops).1 op).1 := runOps_snoc fixed ops Discovery.init op
   intro hev hns hord
   rw [e] at hns hord
-  obtain ⟨t, ht, hg⟩ := flood_ports ops op hev hns hord
+  obtain ⟨t, ht, hg⟩ := flood_ports_partial ops op hev hns hord
   refine ⟨t, by rw [e]; exact ht, ?_⟩
   intro sw hsw ports hp p hpp hlt
   rw [bits_are_prev]
   show s'.prev.get (sw, p) = _
   rw [e] at hp ⊢
   exact hg sw hsw ports hp p hpp hlt
-
-theorem mem_treePorts (t : List TEdge) (sw p : Nat) (hne : ∀ e ∈ t, e.v ≠ e.w) :
-    p ∈ treePorts t sw ↔ ∃ e ∈ t, (e.v = sw ∧ e.pv = p) ∨ (e.w = sw ∧ e.pw = p) := by
-  unfold treePorts
-  rw [List.mem_filterMap]
-  constructor
-  · rintro ⟨e, he, h⟩
-    refine ⟨e, he, ?_⟩
-    by_cases h1 : e.v = sw
-    · simp only [h1, if_true, Option.some.injEq] at h; exact .inl ⟨h1, h⟩
-    · by_cases h2 : e.w = sw
-      · simp only [h1, h2, if_true, if_false, Option.some.injEq] at h; exact .inr ⟨h2, h⟩
-      · simp [h1, h2] at h
-  · rintro ⟨e, he, ⟨h1, h2⟩ | ⟨h1, h2⟩⟩
-    · exact ⟨e, he, by simp [h1, h2]⟩
-    · have : e.v ≠ sw := fun c => hne e he (c.trans h1.symm)
-      exact ⟨e, he, by simp [this, h1, h2]⟩
 
 /-- Reading of the flood bit established by `flood_ports`: a host-facing port floods; an inter-switch port floods iff it is one of
 the two ends of a tree edge (which by `tree_is_forest` is a bidirectional link, and the tree edges form a spanning forest). -/
@@ -266,6 +279,87 @@ theorem flood_ports_forest (adj : List Link) (t : List TEdge) (hne : ∀ e ∈ t
   constructor
   · intro h; simp [h]
   · intro h; simp [h, mem_treePorts t sw p hne]
+
+/-! ### the full statement, the repair C19-2, and "keeps" -/
+
+/-- FLOOD_PORTS, FULL: as `flood_ports_partial`, but for EVERY connected switch, in the tree or not — what the property asks for. -/
+def flood_ports_full (v : Variant) : Prop :=
+  ∀ (ops : List Op) (op : Op),
+    (step v (runOps v Discovery.init ops).1 op).2.events ≠ [] →
+    (∀ l ∈ keys (step v (runOps v Discovery.init ops).1 op).1.adj, l.dpid1 ≠ l.dpid2) →
+    (∀ x ∈ switchesOf (keys (step v (runOps v Discovery.init ops).1 op).1.adj), x ∈ orderOf op) →
+    ∃ t, calcTreeL (keys (step v (runOps v Discovery.init ops).1 op).1.adj) (orderOf op) = .ok t ∧
+      ∀ sw ports, (step v (runOps v Discovery.init ops).1 op).1.conns.get sw = some ports → ∀ p ∈ ports, p < OFPP_MAX →
+        (step v (runOps v Discovery.init ops).1 op).1.prev.get (sw, p) =
+          some (decide (p ∈ treePorts t sw) || isEdgePort (keys (step v (runOps v Discovery.init ops).1 op).1.adj) sw p)
+
+/-- With the repair C19-2 (`_update_tree` goes through every connected switch) the full statement holds. -/
+theorem flood_ports_full_repaired : flood_ports_full full := by
+  intro ops op hev hns hord
+  obtain ⟨t, ht⟩ := calcTreeL_ok _ (orderOf op) hns hord
+  refine ⟨t, ht, ?_⟩
+  intro sw ports hp p hpp hlt
+  exact step_rep_flood full rfl rfl _ op hev t ht sw (visited_of true t _ sw ports hp (.inl rfl)) ports hp p hpp hlt
+
+/-- two switches joined by two one-way cables, 1.1→2.1 and 2.2→1.2 -/
+def witnessLoopOps : List Op := [.up 1 [1, 2, 3], .up 2 [1, 2, 3], .probe ⟨1, 1, 2, 1⟩ [1, 2]]
+def witnessLoopOp : Op := .probe ⟨2, 2, 1, 2⟩ [1, 2]
+
+/-- Without it the full statement is false (open defect of the code before the repair, besides C19-2): the tree is empty, no switch is
+in the tree, no port_mod is ever sent, and all four inter-switch ports keep flooding — a flooding loop over the two one-way cables. -/
+theorem flood_ports_defect_oneway_loop : ¬ flood_ports_full fixed := by
+  intro h
+  obtain ⟨t, ht, hg⟩ := h witnessLoopOps witnessLoopOp (by decide) (by decide) (by decide)
+  have hc : (calcTreeL (keys (step fixed (runOps fixed Discovery.init witnessLoopOps).1 witnessLoopOp).1.adj)
+      (orderOf witnessLoopOp)).toOption = some [] := by decide
+  rw [ht] at hc
+  have e : t = [] := by simpa [Except.toOption] using hc
+  subst e
+  exact absurd (hg 1 [1, 2, 3] (by decide) 1 (by decide) (by decide)) (by decide)
+
+/-- KEEPS (item "after every change … keeps").  For the repaired handlers and every well-formed history (ConnectionUp only for a
+switch that is not connected, PacketIns only from connected switches, no cable from a switch to itself, `order` enumerates the
+switches), after EVERY op — ticks, refreshes, rejected probes, ConnectionUp/Down, empty sweeps included — every link joins two
+different connected switches and every port below `OFPP_MAX` of every switch `_update_tree` goes through (all connected switches with
+the repair C19-2) floods iff it is a tree port or an edge port of the PRESENT adjacency; a port that has not been sent a port_mod on
+its connection counts as flooding. -/
+theorem flood_keeps (v : Variant) (hp : v.popFirst = true) (hs : v.skip = false) (ops : List Op)
+    (hv : validOps v Discovery.init ops) :
+    LinksOK (runOps v Discovery.init ops).1 ∧ FloodInv v.visitAll (runOps v Discovery.init ops).1 :=
+  run_keeps v hp hs ops Discovery.init (Discovery.init_inv v.visitAll).1 (Discovery.init_inv v.visitAll).2 hv
+
+/-- non-vacuity of `validOps`: the D20 history is well-formed, for the code with and without the repair C19-2 -/
+example : validOps full Discovery.init witnessLoopOps ∧ validOps fixed Discovery.init witnessLoopOps := by decide
+
+/-! ### which cables carry a flood -/
+
+/-- CABLE_FLOODS_IFF_TREE_EDGE.  Under point-to-point cabling, for a tree made of bidirectional links (`tree_is_forest`): a cable known in
+both directions floods at both of its ends iff it is a tree edge. -/
+theorem cable_floods_iff_tree_edge (adj : List Link) (t : List TEdge) (hptp : PtP adj) (ht : TreeOfLinks adj t) (l : Link)
+    (hl : l ∈ adj) (hf : l.flip ∈ adj) :
+    (floodOf adj (treePorts t l.dpid1) l.dpid1 l.port1 = true ∧ floodOf adj (treePorts t l.dpid2) l.dpid2 l.port2 = true) ↔
+      ∃ e ∈ t, (⟨e.v, e.pv, e.w, e.pw⟩ : Link) = l ∨ (⟨e.w, e.pw, e.v, e.pv⟩ : Link) = l :=
+  Pox.STree.cable_floods_iff_tree_edge adj t hptp ht l hl hf
+
+/-- REACH_UNIQUE ("a flooded frame reaches every switch exactly once").  Adjacency without self-links, point-to-point cabling, flood
+state `fl` of the sending ends as `flood_ports_full` / `flood_keeps` establish it.  Then a frame flooded at `a` travels exactly along
+tree edges, gets to `b` iff `a` and `b` are connected by bidirectional links, and there is no second route: taking any one tree edge
+out disconnects its ends (a forest has a unique path between two switches). -/
+theorem reach_unique (adj : List Link) (order : List Nat) (hns : ∀ l ∈ adj, l.dpid1 ≠ l.dpid2)
+    (hord : ∀ x ∈ switchesOf adj, x ∈ order) (hptp : PtP adj) (t : List TEdge) (ht : calcTreeL adj order = .ok t)
+    (fl : Nat × Nat → Bool) (hfl : ∀ l ∈ adj, fl (l.dpid1, l.port1) = floodOf adj (treePorts t l.dpid1) l.dpid1 l.port1) :
+    (∀ a b, FloodArc adj fl a b ↔ ((a, b) ∈ t.map (fun e => (e.v, e.w)) ∨ (b, a) ∈ t.map (fun e => (e.v, e.w)))) ∧
+    (∀ a b, FloodReach adj fl a b ↔ RConn (Bidir adj) a b) ∧
+    (∀ es1 v w es2, (t.map fun e => (e.v, e.w)) = es1 ++ (v, w) :: es2 → ¬ Conn (es1 ++ es2) v w) := by
+  obtain ⟨t', ht', _, hlinks, hconn⟩ := tree_is_forest adj order hns hord
+  rw [ht] at ht'
+  cases ht'
+  refine ⟨floodArc_iff_tree_edge adj t hptp hlinks fl hfl, ?_, tree_edge_is_bridge adj order hns hord t ht⟩
+  intro a b
+  rw [floodReach_iff_conn adj t hptp hlinks fl hfl a b]
+  exact hconn a b
+
+example : PtP triAdj := by decide
 
 /-! ### witnesses -/
 
@@ -300,7 +394,7 @@ example : floodOkAfter fixed witnessD20 = true ∧ floodOkAfter fixed witnessSki
 example : ∀ x ∈ switchesOf (keys (runOps fixed Discovery.init witnessD20).1.adj), x ∈ [1, 2, 3, 4] := by decide
 /-- non-vacuity of `port_mods_are_changes` / `bits_are_prev`: the first `_update_tree()` on the triangle sends a port_mod for each of the 9 ports; after the D20
     history the repaired code has re-opened port 2.2, and the bits reconstructed from the messages say so -/
-example : ((updateTree triAdj [1, 2, 3, 4] [(1, [1, 2, 4]), (2, [1, 2, 4]), (3, [1, 2, 3])] []).toOption.map (·.2.length)) = some 9 := by
+example : ((updateTree false triAdj [1, 2, 3, 4] [(1, [1, 2, 4]), (2, [1, 2, 4]), (3, [1, 2, 3])] []).toOption.map (·.2.length)) = some 9 := by
   decide
 example : (bitsRun fixed Discovery.init [] witnessD20).get (2, 2) = some true ∧
     (bitsRun pinned Discovery.init [] witnessD20).get (2, 2) = some false := by decide
